@@ -178,9 +178,9 @@ EPS_LIST = [0.5, 0.3, 0.1, 1e-2, 1e-4, 1e-8]
 
 class Prop:
     ID = "C04"
-    LEVEL = "exploration"
-    COQ_HEADER = ""
-    CHECK_FN = ""
+    LEVEL = "proof"
+    COQ_HEADER = "From TN Require Import Harness.H_C04.\nFrom Coq Require Import QArith.\nOpen Scope Q_scope.\n"
+    CHECK_FN = "check"
     RULE = ("entry points round_tt/round_tucker/round (in place), tn.round_tt/tn.round_tucker/tn.round (copying), "
             "Tensor(cores, Us, eps=), Tensor(dense, eps=), sparse_tt_svd; inputs: enumerated format lattice "
             "({TT,CP}x{U,no U} per mode) for N=2,3 crossed with the entry points, seeded formats for N=4,5; Tucker factors "
@@ -204,7 +204,8 @@ class Prop:
                    "unfolding / the mode size (for sparse_tt_svd only at eps >= 1e-6)",
                    "batch rounding ignores eps in the library (rank caps only); batch cases check that no rank grows, "
                    "caps hold and the tensor is unchanged when no cap binds"]
-    THEOREMS = []
+    THEOREMS = ["C04_rank_choice_sound", "C04_rank_choice_minimal", "C04_rank_bounds", "C04_exact_step", "C04_step_error",
+                "C04_norm_is_core_norm", "C04_tt_budget", "C04_tucker_budget", "C04_round_budget_positive", "C04_round_budget"]
 
     # ------------------------------------------------------------------ generation
     def generate(self, rng, tier):
@@ -672,4 +673,44 @@ class Prop:
                                                  case["rmax"], case.get("uscale"), case.get("dim"), case.get("xscale"))
 
     def coq_term(self, case, res):
-        return None
+        """oracle replay of round_tt (non-batch, small tensors): torch.linalg.qr and tn.truncated_svd are intercepted;
+        the model replays orthogonalize(N-1), the factor QR, the budget delta and the right-to-left sweep with the
+        recorded answers; its arguments and its final tensor must match the implementation's"""
+        from fractions import Fraction
+        if case["op"] not in ("round_tt", "tn.round_tt") or not res.get("ok") or case.get("batch") or case.get("dim") is not None:
+            return None
+        tj = scaled(case["t"], case.get("uscale"), case.get("xscale"))
+        N = len(tj["modes"])
+        if N < 2 or N > 3 or max(max(np.array(m["core"]).shape) for m in tj["modes"]) > 3:
+            return None
+        if any(abs(float(v)) not in (0.0,) and (abs(float(v)) < 1e-4 or abs(float(v)) > 1e4) for m in tj["modes"] for v in flat(m["core"])):
+            return None
+        t = to_tn(tj); qrs = []; tss = []
+        oqr = torch.linalg.qr; ots = tn.truncated_svd
+        def wqr(A, *a, **k):
+            Q, R = oqr(A, *a, **k); qrs.append((A.detach().clone(), Q.detach().clone(), R.detach().clone())); return Q, R
+        def wts(M, *a, **k):
+            l, r = ots(M, *a, **k); tss.append((M.detach().clone(), float(k.get("delta") or 0.0), l.detach().clone(), r.detach().clone())); return l, r
+        kw = {"eps": case["eps"], "algorithm": case["alg"]}
+        if case.get("rmax") is not None:
+            kw["rmax"] = case["rmax"]
+        torch.linalg.qr = wqr; tn.truncated_svd = wts
+        try:
+            t.round_tt(**kw)
+        except Exception:
+            return None
+        finally:
+            torch.linalg.qr = oqr; tn.truncated_svd = ots
+        D = 2 ** 30
+        ql = lambda x: "(%d#%d)" % (round(float(x) * D), D)
+        a2 = lambda A: "(mkA2 %d %d %s)" % (A.shape[0], A.shape[1], coq_list(A.reshape(-1).tolist(), ql, "Q"))
+        # answers are passed exactly (every double is a dyadic rational); compared quantities are rounded to 2^-30
+        qx = lambda x: qlit(Fraction(float(x)))
+        x2 = lambda A: "(mkA2 %d %d %s)" % (A.shape[0], A.shape[1], coq_list(A.reshape(-1).tolist(), qx, "Q"))
+        qa = "[" + "; ".join("mkAns %d %s %s %s" % (Q.shape[1], x2(Q), x2(R), a2(A)) for A, Q, R in qrs) + "]"
+        ta = "[" + "; ".join("mkTs %s %s %s %s" % (x2(l), x2(r), a2(M), qlit(Fraction(d * d).limit_denominator(10 ** 15))) for M, d, l, r in tss) + "]"
+        d = t.torch().detach().double()
+        lit = lambda x: qlit(Fraction(x).limit_denominator(10 ** 9))
+        eps2 = Fraction(case["eps"]).limit_denominator(10 ** 12) ** 2
+        return "mkCase %s %s %s %s %s %s" % (coq_tensor(tj, lit, "Q"), qlit(eps2), qa, ta, coq_natlist(list(d.shape)),
+                                            coq_list(d.reshape(-1).tolist(), ql, "Q"))
